@@ -154,3 +154,32 @@ pub proof fn lemma_mr_pos_range(p: Bitvector)
     lemma_p2_mono((p.w@ - 1) as nat, 63);
     lemma_p2_consts();
 }
+
+/// mark_all_values_as_top is mark_interval_values_as_top / merge_values_intersecting_range_with_top for a range that every
+/// cell meets (ties the vocabulary of the two contracts together; not used by a proof obligation of the unit)
+pub proof fn lemma_mr_all_topped_is_topped<T: AbstractDomain + SizedDomain + HasTop>(m: Map<i64, T>, p: int, s: int)
+    requires forall |k: i64| #[trigger] m.contains_key(k) ==> mr_cell_meets(m, k, p, s)
+    ensures mr_all_topped(m) =~= mr_topped(m, p, s)
+{
+}
+
+/// clear_top_values on top of the layout part of the invariant gives the invariant; on a well-formed region it is the identity
+pub proof fn lemma_mr_without_tops_ok<T: AbstractDomain + SizedDomain + HasTop>(m: Map<i64, T>)
+    ensures
+        (mr_layout_ok(m) && mr_in_range(m)) ==> mr_cells_ok(mr_without_tops(m)) && mr_in_range(mr_without_tops(m)),
+        mr_cells_ok(m) ==> mr_layout_ok(m) && mr_without_tops(m) =~= m,
+{
+}
+
+/// merging every cell with the unknown value of its family keeps the layout (merge keeps the size of equally sized operands,
+/// top() has the size of its argument)
+pub proof fn lemma_mr_all_with_top_layout<T: AbstractDomain + SizedDomain + HasTop>(m: Map<i64, T>)
+    requires mr_domain_ok::<T>(), mr_cells_ok(m), mr_in_range(m),
+    ensures
+        mr_layout_ok(mr_all_with_top(m)), mr_in_range(mr_all_with_top(m)),
+        mr_without_tops(mr_all_with_top(m)) =~= mr_all_topped(m),
+{
+    assert forall |k: i64| #[trigger] m.contains_key(k) implies mr_with_top(m[k]).bytesize_spec() == m[k].bytesize_spec() by {
+        assert(m[k].top_spec().bytesize_spec() == m[k].bytesize_spec());
+    }
+}
